@@ -10,9 +10,16 @@ from harness.fonts import build_font, gen_component_font
 
 
 def sha(tt):
-    b = io.BytesIO()
-    tt.save(b)
-    return hashlib.sha256(b.getvalue()).hexdigest()
+    """hash of the saved font; `tt` may be a thunk: an exception is an outcome too (the same in every interpreter and for
+    every history, or the property is violated), not a reason for the worker to die"""
+    try:
+        if callable(tt):
+            tt = tt()
+        b = io.BytesIO()
+        tt.save(b)
+        return hashlib.sha256(b.getvalue()).hexdigest()
+    except Exception as e:
+        return "raised %s: %s" % (type(e).__name__, str(e)[:200])
 
 
 def static_desc(rng):
@@ -72,17 +79,17 @@ def main():
             desc = static_desc(rng)
             for lib in ("ufoLib2", "defcon"):
                 f = build_font(desc, lib)
-                out["static%d/%s/ttf" % (i, lib)] = sha(ufo2ft.compileTTF(f))
+                out["static%d/%s/ttf" % (i, lib)] = sha(lambda: ufo2ft.compileTTF(f))
                 from ufo2ft.featureWriters import KernFeatureWriter, MarkFeatureWriter, GdefFeatureWriter, CursFeatureWriter
-                out["static%d/%s/ttf-grouped-marks" % (i, lib)] = sha(ufo2ft.compileTTF(build_font(desc, lib), featureWriters=[
+                out["static%d/%s/ttf-grouped-marks" % (i, lib)] = sha(lambda: ufo2ft.compileTTF(build_font(desc, lib), featureWriters=[
                     KernFeatureWriter, MarkFeatureWriter(groupMarkClasses=True), GdefFeatureWriter, CursFeatureWriter]))
-                out["static%d/%s/otf-after-ttf" % (i, lib)] = sha(ufo2ft.compileOTF(f))
-                out["static%d/%s/ttf-second" % (i, lib)] = sha(ufo2ft.compileTTF(f))
+                out["static%d/%s/otf-after-ttf" % (i, lib)] = sha(lambda: ufo2ft.compileOTF(f))
+                out["static%d/%s/ttf-second" % (i, lib)] = sha(lambda: ufo2ft.compileTTF(f))
                 g = build_font(desc, lib)
-                out["static%d/%s/otf-first" % (i, lib)] = sha(ufo2ft.compileOTF(g))
-                out["static%d/%s/ttf-after-otf" % (i, lib)] = sha(ufo2ft.compileTTF(g))
+                out["static%d/%s/otf-first" % (i, lib)] = sha(lambda: ufo2ft.compileOTF(g))
+                out["static%d/%s/ttf-after-otf" % (i, lib)] = sha(lambda: ufo2ft.compileTTF(g))
                 h = build_font(desc, lib)
-                out["static%d/%s/ttf-inplace" % (i, lib)] = sha(ufo2ft.compileTTF(h, inplace=True))
+                out["static%d/%s/ttf-inplace" % (i, lib)] = sha(lambda: ufo2ft.compileTTF(h, inplace=True))
                 if mode == "thorough" or i == 0:
                     p = os.path.join(work, "f%d-%s.ufo" % (i, lib))
                     build_font(desc, lib).save(p)
@@ -92,29 +99,29 @@ def main():
                     else:
                         import defcon
                         r = defcon.Font(p)
-                    out["static%d/%s/ttf-reloaded" % (i, lib)] = sha(ufo2ft.compileTTF(r))
-                    out["static%d/%s/otf-reloaded" % (i, lib)] = sha(ufo2ft.compileOTF(r))
+                    out["static%d/%s/ttf-reloaded" % (i, lib)] = sha(lambda: ufo2ft.compileTTF(r))
+                    out["static%d/%s/otf-reloaded" % (i, lib)] = sha(lambda: ufo2ft.compileOTF(r))
             # a family
             ds_rng = random.Random(seed * 1000 + i)
             for lib in ("ufoLib2", "defcon"):
                 r2 = random.Random(seed * 1000 + i)
                 ds, fonts, masters = dsgen.family(r2, 2, lib)
-                out["var%d/%s/vttf" % (i, lib)] = sha(ufo2ft.compileVariableTTF(ds))
-                out["var%d/%s/vttf-second" % (i, lib)] = sha(ufo2ft.compileVariableTTF(ds))
-                out["var%d/%s/vcff2-after" % (i, lib)] = sha(ufo2ft.compileVariableCFF2(ds))
-                out["var%d/%s/static-after-var" % (i, lib)] = sha(ufo2ft.compileTTF(fonts[0]))
+                out["var%d/%s/vttf" % (i, lib)] = sha(lambda: ufo2ft.compileVariableTTF(ds))
+                out["var%d/%s/vttf-second" % (i, lib)] = sha(lambda: ufo2ft.compileVariableTTF(ds))
+                out["var%d/%s/vcff2-after" % (i, lib)] = sha(lambda: ufo2ft.compileVariableCFF2(ds))
+                out["var%d/%s/static-after-var" % (i, lib)] = sha(lambda: ufo2ft.compileTTF(fonts[0]))
                 # a format-5 document whose variable font carries public.fontInfo overrides, compiled twice, then the default
                 # master compiled on its own
                 r4 = random.Random(seed * 1000 + i)
                 ds4, fonts4, _ = dsgen.family(r4, 2, lib, vf_info=[{"familyName": "Fam VF", "xHeight": 480, "openTypeOS2TypoAscender": 790,
                                                                     "postscriptUnderlinePosition": -90}])
-                out["var%d/%s/vfinfo" % (i, lib)] = sha(ufo2ft.compileVariableTTFs(ds4)["VF0"])
-                out["var%d/%s/vfinfo-second" % (i, lib)] = sha(ufo2ft.compileVariableTTFs(ds4)["VF0"])
-                out["var%d/%s/static-after-vfinfo" % (i, lib)] = sha(ufo2ft.compileTTF(fonts4[0]))
+                out["var%d/%s/vfinfo" % (i, lib)] = sha(lambda: ufo2ft.compileVariableTTFs(ds4)["VF0"])
+                out["var%d/%s/vfinfo-second" % (i, lib)] = sha(lambda: ufo2ft.compileVariableTTFs(ds4)["VF0"])
+                out["var%d/%s/static-after-vfinfo" % (i, lib)] = sha(lambda: ufo2ft.compileTTF(fonts4[0]))
                 r3 = random.Random(seed * 1000 + i)
                 ds2, fonts2, _ = dsgen.family(r3, 2, lib)
-                out["var%d/%s/static-first" % (i, lib)] = sha(ufo2ft.compileTTF(fonts2[0]))
-                out["var%d/%s/vcff2-first" % (i, lib)] = sha(ufo2ft.compileVariableCFF2(ds2))
+                out["var%d/%s/static-first" % (i, lib)] = sha(lambda: ufo2ft.compileTTF(fonts2[0]))
+                out["var%d/%s/vcff2-first" % (i, lib)] = sha(lambda: ufo2ft.compileVariableCFF2(ds2))
         # fixtures
         data = os.path.join(os.environ.get("UFO2FT_REPO", "/repo"), "tests", "data")
         for name in (["TestFont.ufo", "TestMathFont-Regular.ufo", "ContextualAnchorsTest-Regular.ufo", "ColorTest.ufo", "MultipleAnchorClasses.ufo",
@@ -124,13 +131,13 @@ def main():
             for lib, opener in (("ufoLib2", ufoLib2.Font.open), ("defcon", defcon.Font)):
                 f = opener(os.path.join(data, name))
                 try:
-                    out["fixture/%s/%s/ttf" % (name, lib)] = sha(ufo2ft.compileTTF(f))
-                    out["fixture/%s/%s/ttf-second" % (name, lib)] = sha(ufo2ft.compileTTF(f))
+                    out["fixture/%s/%s/ttf" % (name, lib)] = sha(lambda: ufo2ft.compileTTF(f))
+                    out["fixture/%s/%s/ttf-second" % (name, lib)] = sha(lambda: ufo2ft.compileTTF(f))
                 except Exception as e:
                     out["fixture/%s/%s/ttf-second" % (name, lib)] = "raised %s" % type(e).__name__
                 if "Color" not in name:      # (colour layers: known finding F4, judged on the second call)
                     try:
-                        out["fixture/%s/%s/ttf-inplace" % (name, lib)] = sha(ufo2ft.compileTTF(opener(os.path.join(data, name)), inplace=True))
+                        out["fixture/%s/%s/ttf-inplace" % (name, lib)] = sha(lambda: ufo2ft.compileTTF(opener(os.path.join(data, name)), inplace=True))
                     except Exception as e:
                         out["fixture/%s/%s/ttf-inplace" % (name, lib)] = "raised %s" % type(e).__name__
     finally:
